@@ -57,13 +57,24 @@ let process line =
     let b = Buffer.create 256 in
     let add s = Buffer.add_char b ' '; Buffer.add_string b s in
     let typed_ok = ref true and static_fault = ref false in
+    (* the reference semantics R on the same inputs: per cycle Some values | None (fault code) *)
+    let rstore = ref (List.map (fun k -> value_of k Z0) kinds) in
+    let robs = ref [] in
+    let rdead = ref false in
     (try
       for _ = 1 to nc do
         let ns = int_of_string (cx ()) in
         for _ = 1 to ns do
           let x = int_of_string (cx ()) in let v = z_of_string (cx ()) in
-          store := upd !store (nat_of_int x) (value_of karr.(x) v)
+          store := upd !store (nat_of_int x) (value_of karr.(x) v);
+          rstore := upd !rstore (nat_of_int x) (value_of karr.(x) v)
         done;
+        if not !rdead then begin
+          match run_ref env (nat_of_int 3000) !rstore body with
+          | Ok s' -> rstore := s'; robs := (0, List.map (function VBool bb -> if bb then z_of_int 1 else Z0 | VInt (_, z) -> z) s') :: !robs
+          | Fault f -> robs := (fault_code f, []) :: !robs; rdead := true
+          | OutOfFuel -> robs := (-1, []) :: !robs; rdead := true
+        end;
         (match run_cycle (nat_of_int 3000) !store body with
          | Ok s' ->
            store := s'; add "0";
@@ -74,6 +85,24 @@ let process line =
       done with Exit -> ());
     (* judge the IMPLEMENTATION's observations: C01 no static-class fault / panic / leftover frame for
        well-typed programs; C03 every dumped variable carries its declared kind, in range *)
+    let j02 =
+      (match rest with
+       | [obs] ->
+         let o = Array.of_list (split_ws obs) in
+         let i = ref 0 and ok = ref true in
+         (try
+           List.iter (fun (rcode, rvals) ->
+             if !i >= Array.length o then raise Exit;
+             let st = o.(!i) in incr i;
+             if st = "FRAMES-LEFT" then raise Exit;
+             let code = int_of_string st in
+             if rcode = -1 then raise Exit;
+             if rcode <> 0 then (if code <> rcode then ok := false; raise Exit);
+             if code <> 0 then (ok := false; raise Exit);
+             List.iter (fun rv -> let dv = z_of_string o.(!i + 1) in i := !i + 2; if dv <> rv then ok := false) rvals) (List.rev !robs)
+         with Exit -> () | _ -> ok := false);
+         !ok
+       | _ -> true) in
     let j01, j03 =
       (match rest with
        | [obs] ->
@@ -95,8 +124,9 @@ let process line =
            done with Exit -> () | _ -> (ok01 := false; ok03 := false));
          (!ok01, !ok03)
        | _ -> (true, true)) in
-    Printf.printf "%s M%s | J %s T%d S%d J01=%d J03=%d\n" id (Buffer.contents b)
+    Printf.printf "%s M%s | J %s T%d S%d J01=%d J03=%d J02=%d\n" id (Buffer.contents b)
       (if j01 && j03 then "1" else "0") (if well_typed then 1 else 0) (if strict_typed then 1 else 0) (if j01 then 1 else 0) (if j03 then 1 else 0)
+      (if j02 || not well_typed then 1 else 0)
   | _ -> Printf.printf "%s\n" line
 
 let () =
